@@ -1915,3 +1915,30 @@ package hermes
 //@   invariant last: more == ok
 //@ loop Input@"for ok := SCHLAG == g.PKT; ok; ok = SCHLAG == g.PKT && valid {"
 //@   invariant last: more == valid
+
+// C10  "actions dated before the simulation start are ignored" for irrigation (defect F26: the reader compared the rows
+// with a start that was not known yet): once the start is set, exactly the irrigations dated before it are dropped -
+// for an ascending schedule the kept entries are the old ones from the first entry at or after the start on, in order
+//@ region Input#irrstart from "g.BEGINN = g.ERNTE[0]" to "l.ANZBREG = keptIrrigations"
+//@   serves C10
+//@   define dropped() = old(l.ANZBREG) - l.ANZBREG
+//@   requires count: 0 <= l.ANZBREG && l.ANZBREG <= 500
+//@   requires ascending: forall(k, 1, l.ANZBREG, g.ZTBR[k-1] <= g.ZTBR[k])
+//@   ensures start: g.BEGINN == old(g.ERNTE[0])
+//@   ensures fromstart: forall(k, 0, l.ANZBREG, g.ZTBR[k] >= g.BEGINN)
+//@   ensures count: 0 <= l.ANZBREG && l.ANZBREG <= old(l.ANZBREG)
+//@   ensures droppedearly: forall(j, 0, dropped(), old(g.ZTBR)[j] < g.BEGINN)
+//@   ensures kept: forall(k, 0, l.ANZBREG, g.ZTBR[k] == old(g.ZTBR)[k + dropped()] && g.BREG[k] == old(g.BREG)[k + dropped()] && g.BRKZ[k] == old(g.BRKZ)[k + dropped()])
+//@   ensures cleared: forall(k, l.ANZBREG, old(l.ANZBREG), g.ZTBR[k] == 0 && g.BREG[k] == 0 && g.BRKZ[k] == 0)
+//@ loop Input@"for i := 0; i < l.ANZBREG; i++ { if g.ZTBR[i] >= g.BEGINN {"
+//@   invariant range: 0 <= \i && \i <= l.ANZBREG && 0 <= keptIrrigations && keptIrrigations <= \i && unchanged(l.ANZBREG) && g.BEGINN == old(g.ERNTE[0])
+//@   invariant last: keptIrrigations > 0 ==> \i >= 1 && old(g.ZTBR[\i-1]) >= g.BEGINN
+//@   invariant sorted: forall(k, 1, old(l.ANZBREG), old(g.ZTBR[k-1]) <= old(g.ZTBR[k]))
+//@   invariant prefix: forall(j, 0, \i - keptIrrigations, old(g.ZTBR[j]) < g.BEGINN)
+//@   invariant suffix: forall(j, \i - keptIrrigations, \i, old(g.ZTBR[j]) >= g.BEGINN)
+//@   invariant moved: forall(k, 0, keptIrrigations, g.ZTBR[k] == old(g.ZTBR)[k + \i - keptIrrigations] && g.BREG[k] == old(g.BREG)[k + \i - keptIrrigations] && g.BRKZ[k] == old(g.BRKZ)[k + \i - keptIrrigations])
+//@   invariant rest: forall(k, \i, 500, g.ZTBR[k] == old(g.ZTBR[k]) && g.BREG[k] == old(g.BREG[k]) && g.BRKZ[k] == old(g.BRKZ[k]))
+//@ loop Input@"for i := keptIrrigations; i < l.ANZBREG; i++ { g.ZTBR[i], g.BREG[i], g.BRKZ[i] = 0, 0, 0"
+//@   invariant range: keptIrrigations <= \i && (\i <= l.ANZBREG || \i == keptIrrigations) && unchanged(l.ANZBREG)
+//@   invariant zero: forall(k, keptIrrigations, \i, g.ZTBR[k] == 0 && g.BREG[k] == 0 && g.BRKZ[k] == 0)
+//@   invariant head: forall(k, 0, keptIrrigations, g.ZTBR[k] == pre(g.ZTBR[k]) && g.BREG[k] == pre(g.BREG[k]) && g.BRKZ[k] == pre(g.BRKZ[k]))
